@@ -87,6 +87,16 @@ func runC17(c *Ctx) {
 				sp.Conf.Tags[0].Delete = false
 			}
 		}
+		if len(sp.SenderCrashAt) > 0 && rng.Intn(3) == 0 {
+			// hashing one file fails in the first instance (it stays in the cache without a
+			// hash); before the second instance starts the operator adds an ignore pattern
+			// that matches it: it must never be hashed, sent or deleted by that instance
+			f := sp.Files[rng.Intn(nf)].Name
+			cc := *sp.Conf
+			cc.OpenFailGen1 = []string{f}
+			cc.IgnoreFromGen2 = []string{"^" + regexp.QuoteMeta(f) + "$"}
+			sp.Conf = &cc
+		}
 		dir := filepath.Join(c.Work, fmt.Sprintf("c17e-%d", idx))
 		c.Guard(idx, sp, func() {
 			bubble(c.T, func() { c17History(c, idx, rng.Int63(), sp, dir) })
@@ -310,6 +320,33 @@ func c17History(c *Ctx, idx int, seed int64, sp *e2eSpec, dir string) {
 			v("C17", "cache-entry-is-one-version", "cache-entry-mixes-versions", fmt.Sprintf("the sender cached %s with hash %s, size %d and modification time %s (at %s): no version of the file ever had that hash together with that size and time", e.Name, e.S, e.A, time.Unix(0, e.B).UTC().Format(time.RFC3339Nano), e.VT))
 			break
 		}
+	}
+	for _, ign := range sp.Conf.OpenFailGen1 {
+		// nothing is expected of a file that cannot be read and is then ignored ...
+		o.w.regMu.Lock()
+		if o.w.gone == nil {
+			o.w.gone = map[string]bool{}
+		}
+		o.w.gone[ign] = true
+		o.w.regMu.Unlock()
+		// ... except that the instance for which it is ineligible leaves it alone
+		for _, q := range o.reqs {
+			if q.Class != "data" || q.Gen < 2 {
+				continue
+			}
+			for _, p := range q.Parts {
+				if p.Name == ign {
+					v("C17", "ineligible-never-transmitted", "ignored-file-transmitted", fmt.Sprintf("%s matches the ignore pattern of sender instance %d, yet part [%d,%d) of it was transmitted by that instance (it was in the cache without a hash: hashing had failed before the restart)", ign, q.Gen, p.Beg, p.End))
+					break
+				}
+			}
+		}
+		for _, e := range o.events {
+			if e.Kind == "remove" && e.Name == ign && e.Gen >= 2 {
+				v("C17", "ineligible-never-deleted", "ignored-file-deleted", fmt.Sprintf("%s matches the ignore pattern of sender instance %d, yet that instance deleted it", ign, e.Gen))
+			}
+		}
+		res.Count("histories_with_a_file_ignored_after_restart", 1)
 	}
 	oracleIntegrity(o, v) // every delivered byte string is one complete registered version
 	oracleProgress(o, v)  // the final version is delivered, confirmed, recorded
